@@ -6,6 +6,7 @@ import (
 
 	sdk "github.com/cosmos/cosmos-sdk/types"
 
+	clienttypes "github.com/bianjieai/tibc-go/modules/tibc/core/02-client/types"
 	packettypes "github.com/bianjieai/tibc-go/modules/tibc/core/04-packet/types"
 	routingtypes "github.com/bianjieai/tibc-go/modules/tibc/core/26-routing/types"
 
@@ -227,7 +228,21 @@ func runC11(c *core.Ctx, crashes bool) {
 				w.Stats.Inc("near-miss-rule-set")
 			}
 			msg := &routingtypes.MsgSetRoutingRules{Title: "t", Description: "d", Rules: nr, Authority: world.GovAuthority()}
-			g, err := w.GovExec(B, []sdk.Msg{msg}, "rules")
+			msgs := []sdk.Msg{msg}
+			if ch.Int(4) == 1 {
+				// the proposal also carries a message that fails when executed (creating a client that
+				// exists): the whole proposal is rolled back and the stored rules stay as they were
+				if cs, ok := B.ClientState(A.Name); ok {
+					if cons, ok := B.ConsensusState(A.Name, cs.GetLatestHeight()); ok {
+						bad, err := clienttypes.NewMsgCreateClient(A.Name, cs, cons, world.GovAuthority())
+						c.Check(err)
+						bad.ChainName, bad.Title, bad.Description = A.Name, "t", "d"
+						msgs = append(msgs, bad)
+						w.Stats.Inc("gov-rule-change-in-failing-proposal")
+					}
+				}
+			}
+			g, err := w.GovExec(B, msgs, "rules")
 			c.Check(err)
 			if g.SubmitCode == 0 && g.Executed() {
 				rules = nr
